@@ -15,6 +15,7 @@ package c14
 //         either the policy's own value (hint ignored) or anything >= 9223372036 s (saturated); a negative wait or a
 //         small wrapped-around wait is a violation.
 //       - "-5" is not valid delay-seconds: the wait may be 0 (clamped hint) or the policy's own value.
+//       - "+5" is not valid delay-seconds either, but an integer: the wait may be 5 s or the policy's own value.
 //       - RFC1123 with a named zone / RFC1123Z / RFC3339 dates are an extension of the repository: the wait may be the
 //         exact hint or the policy's own value.
 //       - anything else (empty, garbage): the policy's own value.
@@ -89,6 +90,7 @@ const (
 	hSeconds     = "seconds"
 	hSecondsBig  = "seconds-unrepresentable"
 	hSecondsNeg  = "seconds-negative"
+	hSecondsPlus = "seconds-with-plus-sign"
 	hHTTPDate    = "http-date"
 	hExtDate     = "extension-date"
 	hGarbage     = "garbage"
@@ -96,8 +98,9 @@ const (
 )
 
 var (
-	reDigits    = regexp.MustCompile(`^[0-9]+$`)
-	reNegDigits = regexp.MustCompile(`^-[0-9]+$`)
+	reDigits     = regexp.MustCompile(`^[0-9]+$`)
+	reNegDigits  = regexp.MustCompile(`^-[0-9]+$`)
+	rePlusDigits = regexp.MustCompile(`^\+[0-9]+$`)
 )
 
 type hint struct {
@@ -119,6 +122,12 @@ func classifyRA(present bool, v string) hint {
 	}
 	if reNegDigits.MatchString(v) {
 		return hint{Class: hSecondsNeg}
+	}
+	if rePlusDigits.MatchString(v) {
+		if b, _ := new(big.Int).SetString(v[1:], 10); b.IsInt64() && b.Int64() <= maxWholeSecs {
+			return hint{Class: hSecondsPlus, Secs: b.Int64()}
+		}
+		return hint{Class: hSecondsBig}
 	}
 	if d, err := http.ParseTime(v); err == nil {
 		return hint{Class: hHTTPDate, Date: d}
@@ -216,7 +225,7 @@ func checkWait(c waitCase, w time.Duration, now time.Time, observedGap bool) wai
 		default:
 			v.Want = "the policy's own value"
 			// a more specific clause when the wait is the hint although the hint must not be used
-			if c.HasResp && c.HasRA && (h.Class == hSeconds && w == time.Duration(h.Secs)*time.Second || (h.Class == hHTTPDate || h.Class == hExtDate) && w == until(h.Date, now)) {
+			if c.HasResp && c.HasRA && ((h.Class == hSeconds || h.Class == hSecondsPlus) && w == time.Duration(h.Secs)*time.Second || (h.Class == hHTTPDate || h.Class == hExtDate) && w == until(h.Date, now)) {
 				if !c.Honour {
 					v.Clause = "retry-after-applied-while-disabled"
 				} else {
@@ -258,6 +267,16 @@ func checkWait(c waitCase, w time.Duration, now time.Time, observedGap bool) wai
 		v.Want = want.String() + " or the policy's own value"
 		if w == want {
 			v.OK, v.Outcome = true, "hint:extension-date"
+			return v
+		}
+		if bOK {
+			return base()
+		}
+	case hSecondsPlus: // "+5" is not delay-seconds, but an integer: the hint or the policy's own value
+		want := time.Duration(h.Secs) * time.Second
+		v.Want = want.String() + " or the policy's own value"
+		if w == want {
+			v.OK, v.Outcome = true, "hint:seconds-with-plus-sign"
 			return v
 		}
 		if bOK {
